@@ -374,10 +374,31 @@ class SymReal:
             return True
         try: return SymBool(self.t != lift(o))
         except TypeError: return True
-    def __lt__(self, o): return SymBool(self.t < lift(o))
-    def __le__(self, o): return SymBool(self.t <= lift(o))
-    def __gt__(self, o): return SymBool(self.t > lift(o))
-    def __ge__(self, o): return SymBool(self.t >= lift(o))
+    @staticmethod
+    def _inf(o):
+        """+1 / -1 when o is +inf / -inf (a real number compares with an infinity in the obvious way)"""
+        try:
+            if isinstance(o, float) and math.isinf(o):
+                return 1 if o > 0 else -1
+        except TypeError:
+            pass
+        return 0
+
+    def __lt__(self, o):
+        i = self._inf(o)
+        return i > 0 if i else SymBool(self.t < lift(o))
+
+    def __le__(self, o):
+        i = self._inf(o)
+        return i > 0 if i else SymBool(self.t <= lift(o))
+
+    def __gt__(self, o):
+        i = self._inf(o)
+        return i < 0 if i else SymBool(self.t > lift(o))
+
+    def __ge__(self, o):
+        i = self._inf(o)
+        return i < 0 if i else SymBool(self.t >= lift(o))
     __hash__ = object.__hash__
 
     def __bool__(self):
